@@ -142,3 +142,92 @@ def rule_expanders_free_null(mod, rep):
                             if l and f.inst[l[0][1]].op == "load" and cell in f.addr_paths(f.inst[l[0][1]]):
                                 ok = True
             rep.check(ok, "XPND-NULL", "%s#lazy-alloc" % f.name, "allocated only when NULL", "the expander table is not allocated under an 'is NULL' test", f.file, f.name)
+
+
+def rule_min_identity(mod, rep, which=("growth", "firstcol")):
+    """a running minimum must start from an identity of min over its operands' range"""
+    from .threads import loop_bound, loop_of
+    if "growth" in which:
+        rep.rule("MIN-ID", "?PivotGrowth: the running minimum over columns starts from 1/?lamch_(\"S\") (an identity of min for every ratio max|A_j|/max|U_j|, which may exceed 1); "
+                 "it is updated only by min(rpg, ratio) or min(rpg, 1) when the U column is zero", floor=4)
+        for prec, f in fam(mod, "?PivotGrowth"):
+            rep.scope([f.name])
+            ok = False; why = "no floating-point running minimum found"
+            for h, body in f.loops():
+                for ph in f.blocks[h].insts:
+                    if ph.op != "phi" or ph.ty not in ("double", "float"):
+                        continue
+                    ini = [strip_casts(f, o) for o, b in zip(ph.ops, ph.inb) if b not in body]
+                    upd = [strip_casts(f, o) for o, b in zip(ph.ops, ph.inb) if b in body]
+                    # is it a min accumulator: some fcmp olt/ogt between the phi chain and another value selects
+                    ismin = any(x.op == "fcmp" and x.pred in ("olt", "ogt", "ole", "oge") and any(_chain_has(f, o, ph) for o in x.ops) for b in body for x in f.blocks[b].insts)
+                    if not ismin or not ini:
+                        continue
+                    v = ini[0]
+                    # initial value may come through outer-loop phis
+                    seen = 0
+                    while v[0] == "v" and f.inst[v[1]].op == "phi" and seen < 4:
+                        outer = f.inst[v[1]]
+                        cand = [strip_casts(f, o) for o in outer.ops if not _chain_has(f, o, outer) and not _chain_has(f, o, ph)]
+                        if not cand:
+                            break
+                        v = cand[0]; seen += 1
+                    if v[0] == "v" and f.inst[v[1]].op == "fdiv":
+                        d = f.inst[v[1]]
+                        num = strip_casts(f, d.ops[0]); den = strip_casts(f, d.ops[1])
+                        if num[0] == "f" and num[1] == 1.0 and den[0] == "v" and f.inst[den[1]].op == "call" and (f.inst[den[1]].callee or "").endswith("lamch_") \
+                                and f.inst[den[1]].ops[0][0] == "s" and f.inst[den[1]].ops[0][1][:1].upper() == "S":
+                            ok = True
+                    if not ok:
+                        why = "the running minimum starts from %s, not from 1/lamch('S'): columns whose ratio exceeds the start value are ignored" % (
+                            ("the constant %s" % v[1]) if v[0] == "f" else "another value")
+            rep.check(ok, "MIN-ID", "%s#rpg-init" % f.name, "min accumulator starts at 1/safe-minimum", why, f.file, f.name)
+    if "firstcol" in which:
+        rep.rule("MIN-ID2", "sp_coletree: firstcol[row] = min(firstcol[row], col) over col in [0,nc) is initialised with nc, the exclusive bound of that column loop "
+                 "(rows with no entry keep nc, which later compares >= every column)", floor=1)
+        f = mod.funcs.get("sp_coletree")
+        if f is not None:
+            rep.scope([f.name])
+            ok = False; why = "running minimum over the column loop not found"
+            for s in f.insts():
+                if s.op != "store":
+                    continue
+                v = strip_casts(f, s.ops[0])
+                if v[0] != "v" or f.inst[v[1]].op not in ("phi", "select"):
+                    continue
+                arr = f.addr_paths(s)
+                srcs = [strip_casts(f, o) for o in (f.inst[v[1]].ops if f.inst[v[1]].op == "phi" else f.inst[v[1]].ops[1:])]
+                lds = [o for o in srcs if o[0] == "v" and f.inst[o[1]].op == "load" and f.addr_paths(f.inst[o[1]]) == arr]
+                ivs = [o for o in srcs if o[0] == "v" and f.inst[o[1]].op == "phi"]
+                if not lds or not ivs:
+                    continue
+                lp = None
+                for h, body in f.loops():
+                    if f.inst[ivs[0][1]].bb.id == h:
+                        lp = (h, body)
+                if not lp:
+                    continue
+                lb = loop_bound(f, *lp)
+                if not lb:
+                    continue
+                bound = strip_casts(f, lb[2])
+                # the fill: stores to the same array of a value that is not self-dependent, before this loop
+                fills = [t for t in f.insts() if t.op == "store" and f.addr_paths(t) == arr and t is not s and t.bb.id not in lp[1]]
+                if fills and all(same_val(strip_casts(f, t.ops[0]), bound) for t in fills):
+                    ok = True
+                else:
+                    why = "the per-row minimum over columns 0..%s-1 is initialised with %s instead of the column bound" % (
+                        f.pname(bound[1]) if bound[0] == "a" else "bound", ", ".join(sorted(set(f.pname(strip_casts(f, t.ops[0])[1]) if strip_casts(f, t.ops[0])[0] == "a" else "?" for t in fills))) or "nothing")
+            rep.check(ok, "MIN-ID2", "sp_coletree#firstcol-init", "firstcol[] initialised with nc", why, f.file, f.name)
+
+
+def _chain_has(f, o, ph, depth=0):
+    o = strip_casts(f, o)
+    if o[0] != "v" or depth > 5:
+        return False
+    if o[1] == ph.i:
+        return True
+    x = f.inst[o[1]]
+    if x.op in ("phi", "select"):
+        return any(_chain_has(f, y, ph, depth + 1) for y in (x.ops if x.op == "phi" else x.ops[1:]) if not (strip_casts(f, y)[0] == "v" and strip_casts(f, y)[1] == x.i))
+    return False
